@@ -11,6 +11,8 @@
    CANON v                                     -> value | E      (to_json (of_json v))
    WF                                          -> 1 | 0          (wfb state: in the theorems' domain)
    WALK                                        -> L of walked items
+   EDIT <k> i*k (SET <str> v | APPEND <str low> kw | INSERT i <str low> kw | POP i | REVERSE | LAPPEND <str> v |
+                 INNER <str> i <str> v)       -> ok            (in-place edit at the object reached through items[i % len]..)
    LOWER <str> -> <str>      STRIP <str> -> <str>     FLUSH -> flushed *)
 open C13_model
 let rec pos_of_int i = if i = 1 then XH else if i land 1 = 1 then XI (pos_of_int (i lsr 1)) else XO (pos_of_int (i lsr 1))
@@ -49,6 +51,17 @@ let rec wr_val = function
   | VErr -> w "E"
 and wr_kvs k = w (string_of_int (List.length k)); List.iter (fun (a, v) -> wr_str a; wr_val v) k
 
+let rec nat_of_int i = if i <= 0 then O else S (nat_of_int (i - 1))
+let rd_edit () = match next () with
+  | "SET" -> let k = rd_str () in let v = rd_val () in ESet (k, v)
+  | "APPEND" -> let n = rd_str () in let kw = rd_kvs () in EAppend (new_obj n kw)
+  | "INSERT" -> let i = rd_int () in let n = rd_str () in let kw = rd_kvs () in EInsert (nat_of_int i, new_obj n kw)
+  | "POP" -> EPop (nat_of_int (rd_int ()))
+  | "REVERSE" -> EReverse
+  | "LAPPEND" -> let k = rd_str () in let v = rd_val () in EListAppend (k, v)
+  | "INNER" -> let k = rd_str () in let i = rd_int () in let k2 = rd_str () in let v = rd_val () in EInner (k, nat_of_int i, k2, v)
+  | t -> failwith ("bad edit " ^ t)
+
 let st = ref VNull
 let () =
   try while true do
@@ -64,6 +77,8 @@ let () =
          let kw = rd_kvs () in st := append_article t dt kw !st; w "ok"
        | "ADDITEM" -> let n = rd_str () in let kw = rd_kvs () in st := append_item (new_obj n kw) !st; w "ok"
        | "SET" -> let f = rd_str () in let v = rd_val () in st := set_field f v !st; w "ok"
+       | "EDIT" -> let k = rd_int () in let path = rd_n k (fun () -> nat_of_int (rd_int ())) in
+         let e = rd_edit () in st := edit_at path e !st; w "ok"
        | "STATE" -> wr_val !st
        | "TOJSON" -> wr_val (to_json !st)
        | "LOAD" -> let v = rd_val () in (match loads v with Some m -> st := m; w "ok" | None -> w "ERR")
